@@ -337,7 +337,7 @@ def run_check(prop_id, tier, seed):
             # shrinking walked into a known finding: keep the unshrunk case instead
             small, verdict2 = case, verdict
         path = write_replay(prop_id, small, verdict2)
-        replay_paths.append((clause, path, verdict2['violations'][0].get('detail')))
+        replay_paths.append((clause, path, next((x.get('detail') for x in verdict2['violations'] if x['clause'] == clause), verdict2['violations'][0].get('detail'))))
 
     wall = time.time() - t0
     write_evidence(check, tier, seed, total, parts, exhaustive_scopes, wall, len(replay_paths), known_lines)
